@@ -186,4 +186,15 @@ PROPS = {
         "assumes": ["the rig's replica is not a candidate; the other nodes are"],
         "trusted_base": ["Model/Api.v hand-written; tie = cases_c20_*.v"],
     },
+    "C13": {
+        "gen": ["RWMutexGen.v", "ConstsGen.v"], "props_file": "Props/C13.v", "coq_targets": ["Props/C13.v"],
+        "level_text": "Proof (full on the protocol model; real-time races partial): over all event sequences (grant with delivered or lost response, local write, checkpoint, replica commit with delivered or lost acknowledgement, release sent or lost, expiry, foreign POST /tx) the invariant [Inv] (the primary's log is a linked chain, both replicas hold a suffix) is preserved; while a lock is granted local writes and checkpoints are refused and the log moves only through a forward carrying the lock's id (and the grant's guard set keeps every other owner out of RESERVED / WRITE / CKPT on the GENERATED RWMutex lock table of C11); a successful grant puts the replica at exactly the granted = the primary's position; a commit that returns on the replica has been applied by the primary under the same id and checksum on the same history (rlog = plog before and after); after every event and the stream that follows both replicas hold the primary's whole history (also after a lost acknowledgement); forwards need the current lock id and must extend the history; acquire is idempotent, another id is refused; after release or expiry the primary writes again and the former holder is refused (Props/C13.v). "
+                      "Tie: a real primary, a real replica whose HTTP client can lose the responses of POST /halt and POST /tx and drop DELETE /halt, and a real observer replica (real h2c servers / stream); fixed scripts for the schedules the property names plus random event histories; after each event the harness compares result code, the three positions, the primary's granted lock id and the replica's believed lock id with the model, and checks the property's own predicates (no local commit or checkpoint while the lock is held, position at grant, primary == replica when the commit returns, holder only, convergence and byte-identical images at the end, no Exit).",
+        "level_note": "Trusted: Coq kernel, go2coq (lock table), harness. Rollback-journal mode only on the committing replica: in WAL mode a refused forward ends in Exit(99) by design (db.go CommitWAL) and is not exercised. Not modelled: the TTL clock (expiry is an explicit event made by a verif hook + the real EnforceHaltLockExpiration), a release or expiry racing the apply inside one /tx request (the second TODO(fwd) in handlePostTx), primary change while a halt is held.",
+        "technique": "Coq proof by invariant over event histories + lock-table theorem reuse + vm_compute correspondence of real three-node histories with an unreliable client",
+        "rule": "7 fixed scripts + 8 (quick) / 80 (thorough) random histories of 10-19 events on a fresh 3-node cluster each; evaluations = events; distinct = histories; non-trivial = every event's code, positions and lock ids were compared and the property predicates evaluated",
+        "explanation": "The theorems quantify over all event sequences including lost messages; the histories tie the step function to the code.",
+        "assumes": ["lock ids identify their holder (ids are random int64 chosen by the replica)", "NoCollision: a position determines a history"],
+        "trusted_base": ["Model/Halt.v hand-written; tie = cases_c13_*.v; Model/Locks.v over Gen/RWMutexGen.v"],
+    },
 }
